@@ -53,7 +53,9 @@ def check_compound(PH, body, expect_tokens, p, sigbase, rep):
     if i1 is None or i2 is None or not balanced(i1) or not balanced(i2):
         p.failure(f"{sigbase} parts not brace-balanced blocks", dict(rep, p1=p1, p2=p2))
         return
-    if toks(i1) + toks(i2) != expect_tokens:
+    # braces of the part-1 block may or may not survive as a nested block: compare the statement tokens
+    nb = lambda ts: [t for t in ts if t not in "{}"]
+    if nb(toks(i1) + toks(i2)) != nb(expect_tokens):
         p.failure(f"{sigbase} statements lost or reordered", dict(rep, p1=p1, p2=p2))
 
 
